@@ -78,7 +78,13 @@ def _bytes_from_known_interfaces(obj: Any) -> bytes | None:
     """
     # Priority: to_bytes
     try:
-        if hasattr(obj, "to_bytes") and callable(getattr(obj, "to_bytes")):
+        # Builtin ints (and bools) have a to_bytes() of their own that yields one
+        # raw byte for 0..255; they belong to the canonical JSON encoder below.
+        if (
+            not isinstance(obj, int)
+            and hasattr(obj, "to_bytes")
+            and callable(getattr(obj, "to_bytes"))
+        ):
             b = obj.to_bytes()  # type: ignore[misc]
             if isinstance(b, (bytes, bytearray, memoryview)):
                 return bytes(b)
